@@ -319,11 +319,63 @@ func (e *Engine) verifyUnit(name string) (*Unit, error) {
 		}
 		return nil, fmt.Errorf("no implements directive for %q", name)
 	}
+	if strings.HasPrefix(name, "lemma:") {
+		return e.verifyLemma(strings.TrimPrefix(name, "lemma:"))
+	}
 	fn := e.findFunction(name)
 	if fn == nil {
 		return nil, fmt.Errorf("function %s does not exist", name)
 	}
 	return e.VerifyFunction(fn)
+}
+
+// verifyLemma checks `lemma NAME(params) requires P ensures Q`: for all parameter values, P implies Q (from the axioms and
+// the definitions of the spec functions only; a lemma reads no program state).
+func (e *Engine) verifyLemma(name string) (un *Unit, err error) {
+	var lm *Contract
+	for _, l := range e.lemmas {
+		if l.Name == name {
+			lm = l
+		}
+	}
+	if lm == nil {
+		return nil, fmt.Errorf("lemma %s does not exist", name)
+	}
+	un = e.newUnit(nil, "lemma:"+name)
+	defer func() {
+		if r := recover(); r != nil {
+			if u, ok := r.(unsupported); ok {
+				un, err = nil, fmt.Errorf("lemma %s: outside the supported subset: %s", name, u.msg)
+				return
+			}
+			panic(r)
+		}
+	}()
+	f := &Frame{un: un, vals: map[ssa.Value]Val{}, pkgPath: lm.Pkg, clausePkg: lm.Pkg}
+	st := State{R: tTrue, H: map[string]Term{}}
+	env := map[string]Val{}
+	for _, p := range lm.Params {
+		srt, gt := f.specSort(p.Type)
+		v := un.fresh("l_"+p.Name, srt)
+		if gt != nil {
+			un.assume(&st, un.typeFacts(gt, v, &st, 0))
+		}
+		env[p.Name] = Val{T: v, Go: gt}
+	}
+	f.emitAxioms()
+	f.entry = st
+	for _, rq := range lm.Requires {
+		un.assume(&st, f.evalClause(rq, env, &st, &st))
+	}
+	un.smoke(&st, "requires")
+	for _, en := range lm.Ensures {
+		cst := st.clone()
+		gs := f.evalGoals(en, env, &cst, &st)
+		for gi, g := range gs {
+			un.obligeNamed(&cst, fmt.Sprintf("ensures#%s%s", en.label(), partSuffix(gi, len(gs))), "lemma", en.Text, en.Pos, g)
+		}
+	}
+	return un, nil
 }
 
 // emitAxioms adds the `axiom` declarations of the spec and contract files, quantified over every heap they read.
